@@ -98,6 +98,35 @@ func rulePAIR1(w *World) []Ob {
 				}
 			}
 			if lookup == nil {
+				// a helper that creates and links the child: the lookup may guard its only call site
+				pp, okP := resolve(parent).(*ssa.Parameter)
+				var namePrm *ssa.Parameter
+				if nc, ok := resolve(child).(*ssa.Call); ok && nc.Common().StaticCallee() != nil && fname(nc.Common().StaticCallee()) == "newNode" {
+					namePrm, _ = resolve(nc.Common().Args[0]).(*ssa.Parameter)
+				} else if cp, ok := resolve(child).(*ssa.Parameter); ok {
+					namePrm = cp // the child itself is handed in: its name is compared at the call site
+				}
+				if site := soleCallSite(p, fn); okP && namePrm != nil && site != nil {
+					pi, ni := paramIndex(fn, pp), paramIndex(fn, namePrm)
+					args := site.Common().Args
+					if pi >= 0 && ni >= 0 && pi < len(args) && ni < len(args) {
+						for _, g := range guardsOf(site.Block()) {
+							tv, nonNil, ok := nilTest(g.Cond, g.Pol)
+							if !ok || nonNil {
+								continue
+							}
+							lc, ok := stripConv(tv).(*ssa.Call)
+							if !ok || lc.Common().StaticCallee() == nil || fname(lc.Common().StaticCallee()) != "findChildByText" {
+								continue
+							}
+							if sameVar(lc.Common().Args[0], args[pi]) && (sameVar(lc.Common().Args[1], args[ni]) || isNameOfNode(lc.Common().Args[1], args[ni])) {
+								lookup = lc
+							}
+						}
+					}
+				}
+			}
+			if lookup == nil {
 				l.bad(fid, construct, p.InstrPos(ac), "the child is appended without a dominating `parent.findChildByText(<its name>) == nil` test on the same parent: equally named siblings would become two nodes", "insert")
 				return
 			}
@@ -428,14 +457,14 @@ func rulePAIR3(w *World) []Ob {
 			var nodePrm *ssa.Parameter
 			allInstrs(fn, func(in ssa.Instruction) {
 				if ac, ok := nodeMethodCall(in, "addChild"); ok {
-					if prm, isP := resolve(ac.Common().Args[1]).(*ssa.Parameter); isP && inputIndex(fn, prm) >= 0 && fn.Signature.Recv() != nil && recvTypeName(fn) != "Node" {
+					if prm, isP := resolve(ac.Common().Args[1]).(*ssa.Parameter); isP && paramIndex(fn, prm) >= 0 && recvTypeName(fn) != "Node" {
 						adds = append(adds, ac)
 						nodePrm = prm
 					}
 				}
 				if c, ok := in.(*ssa.Call); ok && c.Common().StaticCallee() != nil {
 					if idx, isLink := linkFuncs[c.Common().StaticCallee()]; isLink && idx < len(c.Common().Args) {
-						if prm, isP := resolve(c.Common().Args[idx]).(*ssa.Parameter); isP && inputIndex(fn, prm) >= 0 {
+						if prm, isP := resolve(c.Common().Args[idx]).(*ssa.Parameter); isP && paramIndex(fn, prm) >= 0 {
 							adds = append(adds, c)
 							nodePrm = prm
 						}
@@ -447,7 +476,7 @@ func rulePAIR3(w *World) []Ob {
 			}
 			if fi < nLib {
 				// first round: only remember proven void helpers; judged (and reported) in the second round
-				if fn.Signature.Results().Len() == 0 {
+				if res := fn.Signature.Results(); res.Len() == 0 || (res.Len() == 1 && isNodePtr(res.At(0).Type())) {
 					linked := true
 					allInstrs(fn, func(in ssa.Instruction) {
 						if r, ok := in.(*ssa.Return); ok {
@@ -498,7 +527,7 @@ func rulePAIR3(w *World) []Ob {
 				}
 				continue
 			}
-			if res.Len() == 0 {
+			if res.Len() == 0 || (res.Len() == 1 && isNodePtr(res.At(0).Type())) {
 				// can every path to the exit be shown to link or merge?
 				linked := true
 				allInstrs(fn, func(in ssa.Instruction) {
@@ -724,6 +753,32 @@ func rulePAIR4(w *World) []Ob {
 			continue
 		}
 		n++
+		// an entry point that only forwards all its parameters to one unexported function is judged through that function
+		for hop := 0; hop < 2; hop++ {
+			if len(e.AnonFuncs) != 0 || len(e.Blocks) != 1 {
+				break
+			}
+			var only *ssa.Call
+			nCalls := 0
+			allInstrs(e, func(in ssa.Instruction) {
+				if c, ok := in.(ssa.CallInstruction); ok {
+					nCalls++
+					only, _ = c.(*ssa.Call)
+				}
+			})
+			if nCalls != 1 || only == nil {
+				break
+			}
+			g := only.Common().StaticCallee()
+			if g == nil || !p.InModule(g) || g.Blocks == nil || (g.Object() != nil && g.Object().Exported()) || g.Signature.Recv() != nil {
+				break
+			}
+			idx := inputIndexParam(e, rootPrm)
+			if idx < 0 || idx >= len(only.Common().Args) || !sameVar(only.Common().Args[idx], rootPrm) || idx >= len(g.Params) {
+				break
+			}
+			e, rootPrm = g, g.Params[idx]
+		}
 		// body: the function itself, or the single closure it returns
 		body := e
 		if len(e.AnonFuncs) == 0 && len(e.Blocks) == 1 {
@@ -807,6 +862,10 @@ func rulePAIR4(w *World) []Ob {
 		}
 		if !argOK {
 			l.bad(fid, construct, p.InstrPos(vcall), "the validator is not applied to the root parameter", "validate-first")
+			continue
+		}
+		if why := actsBeforeValidating(p, nc, vcall.Common().StaticCallee(), 0); why != "" {
+			l.bad(fid, construct, p.InstrPos(vcall), "the first call is "+calleeString(vcall.Common())+", which "+why, "validate-first")
 			continue
 		}
 		// every other call lies on the nil side, except handing the error over on the non-nil side
@@ -1447,4 +1506,94 @@ func reachableAvoidingLinks(fn *ssa.Function, r *ssa.Return, adds []*ssa.Call) b
 		return false
 	}
 	return blockReach(fn.Blocks[0], stop)[r.Block()]
+}
+
+// actsBeforeValidating: f is used as "the validator" of an entry point.  Either f has no effects at all (it only inspects
+// the node), or f itself starts with a validator call and does everything else on that call's nil side.
+func actsBeforeValidating(p *Prog, nc *nilCtx, f *ssa.Function, depth int) string {
+	if f == nil || f.Blocks == nil || depth > 2 {
+		return ""
+	}
+	var inner *ssa.Call
+	for _, in := range f.Blocks[0].Instrs {
+		if c, ok := in.(*ssa.Call); ok {
+			if g := c.Common().StaticCallee(); g != nil && nc.nilRetImp[g] != nil {
+				inner = c
+			}
+			break
+		}
+	}
+	why := ""
+	allInstrs(f, func(in ssa.Instruction) {
+		if why != "" {
+			return
+		}
+		switch x := in.(type) {
+		case *ssa.Store:
+			if _, isLocal := x.Addr.(*ssa.Alloc); isLocal {
+				return
+			}
+			if inner == nil || !guardedNil(inner, in) {
+				why = "writes state (" + p.InstrPos(in) + ") before a nil or non-root node is rejected"
+			}
+		case ssa.CallInstruction:
+			if inner != nil && (in == ssa.Instruction(inner) || guardedNil(inner, in)) {
+				return
+			}
+			g := x.Common().StaticCallee()
+			if g == nil {
+				why = "makes a dynamic call (" + p.InstrPos(in) + ") before a nil or non-root node is rejected"
+				return
+			}
+			if !p.InModule(g) {
+				if classifyExternal(g) != EffPure {
+					why = "calls " + calleeString(x.Common()) + " before a nil or non-root node is rejected"
+				}
+				return
+			}
+			if w := actsBeforeValidating(p, nc, g, depth+1); w != "" && (inner == nil || in != ssa.Instruction(inner)) {
+				// a callee that writes: only harmless when it is itself a pure predicate
+				if hasEffects(p, g, 0) {
+					why = "calls " + calleeString(x.Common()) + ", which has effects, before a nil or non-root node is rejected"
+				}
+			}
+		}
+	})
+	if why == "" && inner != nil {
+		return actsBeforeValidating(p, nc, inner.Common().StaticCallee(), depth+1)
+	}
+	return why
+}
+
+// hasEffects: f (or a module callee) stores to non-local memory or calls an external function with effects.
+func hasEffects(p *Prog, f *ssa.Function, depth int) bool {
+	if f == nil || f.Blocks == nil || depth > 3 {
+		return false
+	}
+	eff := false
+	allInstrs(f, func(in ssa.Instruction) {
+		switch x := in.(type) {
+		case *ssa.Store:
+			if _, isLocal := x.Addr.(*ssa.Alloc); !isLocal {
+				eff = true
+			}
+		case *ssa.MapUpdate:
+			eff = true
+		case ssa.CallInstruction:
+			g := x.Common().StaticCallee()
+			switch {
+			case g == nil:
+				eff = true
+			case !p.InModule(g):
+				if classifyExternal(g) != EffPure {
+					eff = true
+				}
+			default:
+				if hasEffects(p, g, depth+1) {
+					eff = true
+				}
+			}
+		}
+	})
+	return eff
 }
